@@ -1,6 +1,7 @@
 package main
 
 import (
+	"sort"
 	"fmt"
 	"go/token"
 	"go/types"
@@ -34,7 +35,7 @@ func init() {
 		r.floor("R5", 8)
 	}, checkC24)
 	register("C32", func(r *Report) {
-		r.Explanation = "Sibling comparison of every resolver site in the client library, the gateway and the CLI tools: (R1) ID -> name uses PredefinedTopics.GetTopicName(<own client id>, <the packet's topic ID>) for predefined IDs and DecodeShortTopic(<the packet's topic ID>) for short ones; name -> ID uses GetTopicID(<own client id>, name) and EncodeShortTopic(name) under IsShortTopic(name); no site swaps arguments or uses another function; (R2) 'own client id' is the same identity on both ends: the gateway's comes from the CONNECT packet's ClientID, the client's CONNECT ClientID comes from cfg.ClientID, which is also the identity of every client-side lookup, and the CLI tools look up with the ID they configure; (R3) the two lookup functions are mutually consistent (C05's rules, re-run here) and the short codec is a byte-exact bijection (C21-R6, re-run here); (R4) the gateway uses the results lawfully: the (topic-ID type, ID) pairing of PUBLISHes to the client (C02-R2) and the producers of the topic name of PUBLISHes to the broker (C01-R2), re-run here - a cache or another source in between is a violation; (R5) the mapping the gateway looks up in is the configured one for the whole session: no session writes to it, directly or through an alias (C15-R2, re-run here). Not decided: that both ends were given the same configuration (the operator's responsibility)."
+		r.Explanation = "Sibling comparison of every resolver site in the client library, the gateway and the CLI tools: (R1) ID -> name uses PredefinedTopics.GetTopicName(<own client id>, <the packet's topic ID>) for predefined IDs and DecodeShortTopic(<the packet's topic ID>) for short ones; name -> ID uses GetTopicID(<own client id>, name) and EncodeShortTopic(name) under IsShortTopic(name); no site swaps arguments or uses another function; (R2) 'own client id' is the same identity on both ends: the gateway's comes from the CONNECT packet's ClientID, the client's CONNECT ClientID comes from cfg.ClientID, which is also the identity of every client-side lookup, and the CLI tools look up with the ID they configure; (R3) the two lookup functions are mutually consistent (C05's rules, re-run here) and the short codec is a byte-exact bijection (C21-R6, re-run here); (R4) the gateway uses the results lawfully: the (topic-ID type, ID) pairing of PUBLISHes to the client (C02-R2) and the producers of the topic name of PUBLISHes to the broker (C01-R2), re-run here - a cache or another source in between is a violation; (R5) the mapping the gateway looks up in is the configured one for the whole session: no session writes to it, directly or through an alias (C15-R2, re-run here); (R6) the client delivers a received PUBLISH under a name that comes straight from its registry / GetTopicName / DecodeShortTopic (no cache keyed without the topic-ID type). Not decided: that both ends were given the same configuration (the operator's responsibility)."
 		r.floor("R1", 8)
 		r.floor("R2", 3)
 		r.floor("R3", 18)
@@ -802,6 +803,7 @@ func (c *Ctx) checkConnectWillAndFlags(r *Report, gm *gwModel) {
 
 func checkC32(c *Ctx, r *Report) {
 	checkC32Sites(c, r)
+	c.checkClientDeliveryTopic(r, "R6")
 	// R3
 	importRules(c, r, "C05", map[string]string{"R1": "R3", "R2": "R3"})
 	importRules(c, r, "C21", map[string]string{"R6": "R3"})
@@ -1204,5 +1206,107 @@ func (c *Ctx) checkWriteForwarders(r *Report, rule string) {
 	}
 	if n == 0 {
 		r.ok(rule, "connection-wrappers:forward-whole-buffer", "-", "no repository type wraps a connection's Write")
+	}
+}
+
+// checkClientDeliveryTopic (C32-R6): the client's side of "the results are used lawfully": the topic name under which a
+// received PUBLISH is handed to the subscription handlers comes, on every path, straight from one of the three
+// resolvers for the packet's topic-ID type - the client's registry (topic IDs it acknowledged), GetTopicName for its own
+// client ID, DecodeShortTopic. A cache or any other source in between is a violation (the three ID spaces are disjoint
+// only together with the topic-ID type).
+func (c *Ctx) checkClientDeliveryTopic(r *Report, rule string) {
+	n := 0
+	for _, f := range c.repoFuncs("client") {
+		allInstrs(f, func(i ssa.Instruction) {
+			ci, ok := i.(ssa.CallInstruction)
+			if !ok {
+				return
+			}
+			g := staticCallee(ci.Common())
+			if g == nil || fnPkgPath(g) != pkClient || g.Signature.Recv() == nil {
+				return
+			}
+			// the delivery function: takes a string and a *Publish and starts a goroutine / calls a callback type
+			var topicArg ssa.Value
+			hasPub := false
+			for k, p := range g.Params {
+				if k >= len(ci.Common().Args) {
+					break
+				}
+				if b, ok := p.Type().Underlying().(*types.Basic); ok && b.Kind() == types.String {
+					topicArg = ci.Common().Args[k]
+				}
+				if typeIs(p.Type(), pkPackets1, "Publish") {
+					hasPub = true
+				}
+			}
+			if topicArg == nil || !hasPub {
+				return
+			}
+			delivers := false
+			allInstrs(g, func(j ssa.Instruction) {
+				if _, ok := j.(*ssa.Go); ok {
+					delivers = true
+				}
+			})
+			if !delivers {
+				return
+			}
+			n++
+			r.fn(f)
+			key := fnKey(f) + ":delivery-topic-from-resolvers"
+			var bad []string
+			var srcs []string
+			lawfulCall := func(callee string) bool {
+				return callee == "("+pkTopics+".PredefinedTopics).GetTopicName" || callee == pkPackets+".DecodeShortTopic"
+			}
+			for _, o := range c.deepOriginsStop(topicArg, 3, lawfulCall) {
+				d := o.String()
+				switch {
+				case o.Kind == "call" && (o.Callee == "("+pkTopics+".PredefinedTopics).GetTopicName" || o.Callee == pkPackets+".DecodeShortTopic"):
+				case o.Kind == "range" || o.Kind == "lookup":
+					// the client's registry: a plain map field of the client (name <-> uint16)
+					var mtyp types.Type
+					if len(o.Args) > 0 {
+						if rg, ok := o.Args[0].(*ssa.Range); ok {
+							mtyp = rg.X.Type()
+						}
+					}
+					for _, rv := range []ssa.Value{o.Root, o.Val} {
+						if rv == nil || mtyp != nil {
+							continue
+						}
+						if nx, ok := rv.(*ssa.Next); ok {
+							if rg, ok := nx.Iter.(*ssa.Range); ok {
+								mtyp = rg.X.Type()
+							}
+						} else if _, ok := derefType(rv.Type()).Underlying().(*types.Map); ok {
+							mtyp = derefType(rv.Type())
+						}
+					}
+					if mtyp == nil {
+						bad = append(bad, d)
+					} else if mt, ok := mtyp.Underlying().(*types.Map); !ok {
+						bad = append(bad, d+" [not a map]")
+					} else {
+						kb, _ := mt.Key().Underlying().(*types.Basic)
+						eb, _ := mt.Elem().Underlying().(*types.Basic)
+						if !((kb != nil && kb.Kind() == types.Uint16) || (eb != nil && eb.Kind() == types.Uint16)) {
+							bad = append(bad, d)
+						}
+					}
+				case o.Kind == "const" || o.Kind == "zero":
+				default:
+					bad = append(bad, d+" ["+o.Kind+"]")
+				}
+				srcs = append(srcs, d)
+			}
+			sort.Strings(srcs)
+			r.cond(len(bad) == 0 && len(srcs) > 0, rule, key, c.instrPos(i), "topic name from: "+strings.Join(srcs, "; "),
+				"the name under which a received PUBLISH is delivered does not come straight from the registry / GetTopicName / DecodeShortTopic: "+strings.Join(bad, "; ")+" - a cache or other source keyed without the topic-ID type delivers a message under another topic's name")
+		})
+	}
+	if n == 0 {
+		r.undecided(rule, "client:delivery-topic", "-", "no call of the client's delivery function found")
 	}
 }
